@@ -44,6 +44,29 @@ class _CompoundLatency(LatencyDistribution):
         return Duration.from_seconds(base_dur.to_seconds() + extra_dur.to_seconds())
 
 
+def _open_windows(link, attr: str) -> dict:
+    """Open fault windows of one kind on *link* (token -> value), kept on the link."""
+    windows = getattr(link, attr, None)
+    if windows is None:
+        windows = {}
+        setattr(link, attr, windows)
+    return windows
+
+
+def _apply_latency(link) -> None:
+    """Base latency plus the extra of every open InjectLatency window."""
+    latency = link._fault_base_latency
+    for extra in link._latency_fault_windows.values():
+        latency = _CompoundLatency(latency, extra)
+    link.latency = latency
+
+
+def _apply_loss(link) -> None:
+    """Base loss rate plus the rate of every open InjectPacketLoss window (capped at 1)."""
+    extra = sum(link._loss_fault_windows.values())
+    link.packet_loss_rate = min(1.0, link._fault_base_loss + extra) if extra else link._fault_base_loss
+
+
 @dataclass(frozen=True)
 class InjectLatency:
     """Add extra latency to a network link for a time window.
@@ -75,13 +98,17 @@ class InjectLatency:
         if link is None:
             raise ValueError(f"No link found: {self.source_name} -> {self.dest_name}")
 
-        original_latency = link.latency
         extra_dist = ConstantLatency(self.extra_ms / 1000.0)
         src = self.source_name
         dst = self.dest_name
+        token = object()
 
         def activate(e: Event) -> None:
-            link.latency = _CompoundLatency(original_latency, extra_dist)
+            windows = _open_windows(link, "_latency_fault_windows")
+            if not windows:
+                link._fault_base_latency = link.latency
+            windows[token] = extra_dist
+            _apply_latency(link)
             logger.info(
                 "[FaultInjection] Injected +%sms latency on %s -> %s at %s",
                 self.extra_ms,
@@ -91,7 +118,11 @@ class InjectLatency:
             )
 
         def deactivate(e: Event) -> None:
-            link.latency = original_latency
+            windows = _open_windows(link, "_latency_fault_windows")
+            if token not in windows:
+                return
+            del windows[token]
+            _apply_latency(link)
             logger.info(
                 "[FaultInjection] Restored latency on %s -> %s at %s",
                 src,
@@ -151,13 +182,17 @@ class InjectPacketLoss:
         if link is None:
             raise ValueError(f"No link found: {self.source_name} -> {self.dest_name}")
 
-        original_loss = link.packet_loss_rate
         src = self.source_name
         dst = self.dest_name
         extra = self.loss_rate
+        token = object()
 
         def activate(e: Event) -> None:
-            link.packet_loss_rate = min(1.0, original_loss + extra)
+            windows = _open_windows(link, "_loss_fault_windows")
+            if not windows:
+                link._fault_base_loss = link.packet_loss_rate
+            windows[token] = extra
+            _apply_loss(link)
             logger.info(
                 "[FaultInjection] Injected +%.1f%% packet loss on %s -> %s at %s",
                 extra * 100,
@@ -167,7 +202,11 @@ class InjectPacketLoss:
             )
 
         def deactivate(e: Event) -> None:
-            link.packet_loss_rate = original_loss
+            windows = _open_windows(link, "_loss_fault_windows")
+            if token not in windows:
+                return
+            del windows[token]
+            _apply_loss(link)
             logger.info(
                 "[FaultInjection] Restored packet loss on %s -> %s at %s",
                 src,
